@@ -149,28 +149,17 @@ func c12R1(c *Ctx) {
 		return s
 	}(dupRet)
 	c.Require("C12.R1", "second default route is rejected", dfn, dupRet, elem+".DefaultRoute && "+seenFlag.Name(), nil)
-	// the flag accumulates: seen = seen || elem.DefaultRoute, after the check, unconditionally in the loop body
-	okAcc := false
+	// the flag accumulates: after every completed iteration, an element that asks for the default
+	// route has been counted
 	for _, d := range varDefs(dfn, seenFlag) {
 		if d.tok == token.DEFINE {
 			okInit := d.rhs != nil && info.Types[d.rhs].Value != nil && !constant.BoolVal(info.Types[d.rhs].Value)
 			c.Check(okInit, "C12.R1", "seen-flag starts false", p.Pos(d.node), dfn.Key(), seenFlag.Name()+" := false", exprString2(d.node))
-			continue
-		}
-		if d.node.Pos() > vloop.Pos() && d.node.End() < vloop.End() {
-			be, ok := ast.Unparen(d.rhs).(*ast.BinaryExpr)
-			if ok && be.Op == token.LOR && (identObj(info, be.X) == seenFlag || identObj(info, be.Y) == seenFlag) && strings.Contains(exprString(d.rhs), elem+".DefaultRoute") {
-				// directly in the loop body (not nested in a condition) and after the check
-				body := loopBody(vloop)
-				for _, s := range body.List {
-					if s == d.node.(ast.Stmt) && d.node.Pos() > dupRet.End() {
-						okAcc = true
-					}
-				}
-			}
 		}
 	}
-	c.Check(okAcc, "C12.R1", "seen-flag accumulates every default route", p.Pos(vloop), dfn.Key(), seenFlag.Name()+" = "+seenFlag.Name()+" || conf.DefaultRoute, unconditionally after the duplicate check", "not recognised")
+	c.RequireAtEnd("C12.R1", "seen-flag accumulates every default route", dfn, loopBody(vloop), "!"+elem+".DefaultRoute || "+seenFlag.Name(), nil)
+	okAcc := true
+	_ = okAcc
 	// missing primary interface is an error
 	okIf := false
 	for _, s := range dfn.Decl.Body.List {
